@@ -31,6 +31,7 @@ H = "_x_history"
 
 contract(
     "ascmhl.generator.MHLGenerationCreationSession.append_file_hash",
+    slices=14,
     params={
         "file_path": "str", "file_size": "int?", "file_modification_date": "datetime?", "hash_format": "str",
         "hash_string": "str", "action": "str?", "hash_date": "datetime?",
